@@ -320,13 +320,22 @@ class Verdict:
     def violation(self, replay_obj, no_input=False):
         self.violations.append((replay_obj, no_input))
 
-    def known_finding(self, text):
+    def known_finding(self, text, fid=None):
+        """A listed finding reproduced by this run. [fid] = its id in known_findings.json."""
+        if fid and ("[%s]" % fid) not in text:
+            text = "[%s] %s" % (fid, text)
         if text not in self.known:
             self.known.append(text)
 
     def finish(self, coverage, assumptions, level="proof"):
         for k in self.known:
             print("KNOWN-FINDING: property=%s %s" % (self.prop, k))
+        # every listed open finding is reported on every run, also when this run's inputs did
+        # not happen to reproduce it (the list is read, never written)
+        for f in known_findings(self.prop):
+            if not any(f["id"] in k for k in self.known):
+                print("KNOWN-FINDING: property=%s [%s] %s (listed in known_findings.json; not reproduced by this run's inputs)"
+                      % (self.prop, f["id"], f["what"].split(" (libwallet")[0][:300]))
         for obj, no_input in self.violations[:5]:
             path = write_replay(self.prop, obj)
             print("VIOLATION property=%s replay=%s%s" % (
